@@ -166,6 +166,7 @@ class LoopCut:
         preceded by the real sweep(s) at it-1 (.. down to 0) from the same iterate: every state the real loop can be in at
         iteration `it` is the image of a sweep from some state, so the argument stays inductive, and an exit taken during the
         warm-up is itself a real exit and is returned as such."""
+        self._known(state)
         try:
             r = self._body(dict(state), it)
         except NameError as e:   # UnboundLocalError included
@@ -188,7 +189,15 @@ class LoopCut:
         return kind, st
 
     def suffix(self, state):
+        self._known(state)
         return self._suffix(dict(state))
+
+    def _known(self, state):
+        """an iterate that names a variable the function does not have (renamed by a refactoring) would silently not be installed, and the sweep would run
+        from whatever the prefix left: the harness is out of date - undecided, never a verdict"""
+        unknown = sorted(k for k in state if k not in self.locals_ and not k.startswith("_"))
+        if unknown:
+            raise LoopCutError(f"the iterate names {unknown}, not local variables of {self.func.__qualname__}")
 
     def loop_var_uses(self):
         """How the loop variable is used inside the body: list of AST contexts (for the iteration-class argument)."""
